@@ -714,6 +714,7 @@ func main() {
 	for _, k := range []string{"event_bus.go:Subscribe", "event_bus.go:SubscribeContext", "event_bus.go:Unsubscribe", "event_bus.go:Clear", "event_bus.go:ClearAll"} {
 		mutFns = append(mutFns, fmt.Sprint(id(k)))
 	}
+	sb.WriteString(fmt.Sprintf("\n/-- MemoryStore.Append -/\ndef code_memstore_append : Nat := %d\n", id("persist.go:MemoryStore.Append")))
 	sb.WriteString(fmt.Sprintf("\n/-- Subscribe, SubscribeContext, Unsubscribe, Clear, ClearAll -/\ndef registryMutators : List Nat := [%s]\ndef code_shard_handlers : Nat := %d\n", strings.Join(mutFns, ", "), id("shard.handlers")))
 	var rank []string
 	for _, k := range []string{"handler.mu", "bus.storeMu", "memstore.mu", "mat.mu", "statestore.mu", "shard.mu", "upcast.mu", "handler.seqMu", "inflight.mu"} {
@@ -1034,6 +1035,7 @@ func emitSQLFacts(repo, out string) error {
 	var pragmas, schema, migrateTx [][]string
 	var appendSQL, saveSQL []string
 	var readSQLs [][]string // every SELECT over the events table, wherever it is written
+	var poolCalls []string  // configuration of the database/sql pool: db.SetMaxOpenConns(…), SetConnMaxIdleTime(…), …
 	appendExecs, saveExecs := 0, 0
 	appendDBCalls, saveDBCalls := 0, 0
 	appendResultVar, appendOffsetFromResult := "", false
@@ -1111,6 +1113,9 @@ func emitSQLFacts(repo, out string) error {
 						}
 					}
 				case *ast.CallExpr:
+					if sel, ok := x.Fun.(*ast.SelectorExpr); ok && (strings.HasPrefix(sel.Sel.Name, "SetMax") || strings.HasPrefix(sel.Sel.Name, "SetConnMax")) {
+						poolCalls = append(poolCalls, sel.Sel.Name)
+					}
 					if sel, ok := x.Fun.(*ast.SelectorExpr); ok && dbMethods[sel.Sel.Name] {
 						if fn == "Append" {
 							appendDBCalls++
@@ -1156,6 +1161,7 @@ func emitSQLFacts(repo, out string) error {
 	list2("migrateOutsideTx", schema)
 	list2("migrateInTx", migrateTx)
 	list2("readSqls", readSQLs)
+	sb.WriteString("/-- calls that constrain the connection pool (none: connections are opened as needed and kept) -/\ndef poolCalls : List String := " + leanStrList(poolCalls) + "\n\n")
 	sb.WriteString("def appendSql : List String := " + leanStrList(appendSQL) + "\n\n")
 	sb.WriteString("def saveOffsetSql : List String := " + leanStrList(saveSQL) + "\n\n")
 	sb.WriteString(fmt.Sprintf("/-- number of statement executions in `Append` / `SaveOffset` (each must be exactly one prepared statement) -/\ndef appendExecs : Nat := %d\ndef saveOffsetExecs : Nat := %d\n", appendExecs, saveExecs))
